@@ -23,7 +23,8 @@ RULES13 = ['InverseBinaryRule', 'BlockRowBlockDiagonalRule', 'BlockDiagonalBlock
            'LinearPolarizerHWPRule']
 
 PLAN = {
-    'C19': _p(shards={'x32': 14, 'x64': 2}, quick=60, thorough=1500, qbudget=70, tbudget=1800),
+    'C20': _p(quick=220, thorough=6000),
+    'C19': _p(shards={'x32': 14, 'x64': 2}, quick=220, thorough=1500, qbudget=70, tbudget=1800),
     'C18': _p(quick=70, thorough=1500, qbudget=75, tbudget=2400),
     'C17': _p(shards={'x32': 8, 'x64': 8}, quick=150, thorough=4000,
               exhaustive_scope='the enumerated small maps of the sweep (see coverage.extra.sweep_box)'),
